@@ -652,6 +652,20 @@ func (c *EvalCtx) evalCall(x *ast.CallExpr) Val {
 			}
 		}
 		return BoolV{tAnd(cs...)}
+	case "binsize":
+		// binsize(x): encoding/binary size of the fixed-size value boxed in interface x (of *x when x boxes a pointer)
+		v := c.eval(args[0])
+		if rv, ok := v.(RefV); ok {
+			if t, ok := fe.boxType[rv.T]; ok {
+				if pt, isP := t.Underlying().(*types.Pointer); isP {
+					t = pt.Elem()
+				}
+				if k, ok := intKindOf(t); ok {
+					return IntV{tInt(int64(k.bits / 8))}
+				}
+			}
+		}
+		return IntV{fe.fresh("binsize", "Int")}
 	case "freshobj":
 		// freshobj(x): x was allocated by this call (distinct from everything that existed before)
 		v := termOf(c.eval(args[0]))
